@@ -25,6 +25,7 @@ type Program struct {
 	initPrefix         []string
 	allowUninitVars    map[string]bool
 	byName             map[string]*ssa.Function
+	stubs              map[string]*ssa.Function // real function name -> harness stub (ZZStub_<pkg>_<Func>)
 }
 
 // NewProgram prepares prog (which must have been built with
@@ -43,8 +44,34 @@ func NewProgram(prog *ssa.Program, sizes types.Sizes, initPkgs []string, initPre
 		panic("ssa.Program doesn't include runtime package")
 	}
 	p.runtimeErrorString = runtimePkg.Type("errorString").Object().Type()
+	p.stubs = map[string]*ssa.Function{}
+	for _, pkg := range prog.AllPackages() {
+		for name, m := range pkg.Members {
+			fn, ok := m.(*ssa.Function)
+			if !ok || !strings.HasPrefix(name, "ZZStub_") {
+				continue
+			}
+			rest := strings.TrimPrefix(name, "ZZStub_")
+			k := strings.LastIndex(rest, "_")
+			if k < 0 {
+				continue
+			}
+			target := strings.ReplaceAll(rest[:k], "_", "/") + "." + rest[k+1:]
+			p.stubs[target] = fn
+		}
+	}
 	initReflect(p)
 	return p
+}
+
+// Stubs lists the environment stubs supplied by harness files.
+func (p *Program) Stubs() []string {
+	var out []string
+	for k, v := range p.stubs {
+		out = append(out, k+" -> "+v.String())
+	}
+	sort.Strings(out)
+	return out
 }
 
 func (p *Program) initAllowed(pkg *ssa.Package) bool {
